@@ -1107,6 +1107,8 @@ def run(rep):
 def replay(rep, path):
     r = json.load(open(path))
     print(json.dumps(r, indent=1)[:2000])
+    if isinstance(r.get('history'), list):
+        return run(rep)          # a writer history (random driver state): the whole check is the replay
     if 'history' in r:
         h = r['history']
         pre = None if h['pre'] is None else (h['pre'][0], [tuple(x) for x in h['pre'][1]])
